@@ -184,6 +184,11 @@ func (g refGen) pick(want string, bad int, label string) Ref {
 	case "epic":
 		good = epics
 		wrong = [][]string{tasks, pr, {"000000"}}
+		if len(epics) > 0 {
+			// other spellings of a live epic's id name nothing
+			e := epics[0]
+			wrong = append(wrong, []string{strings.ToLower(e), e + " ", " " + e})
+		}
 	default:
 		good = append(append([]string{}, tasks...), epics...)
 		wrong = [][]string{pr, {"000000"}}
@@ -276,7 +281,19 @@ func genFields(t *rapid.T, g refGen, prof Profile, op *Op, isNew, isEpic bool) {
 
 // genResult attaches a result with a mostly valid path.
 func genResult(t *rapid.T, g refGen, op *Op) {
+	// a quarter of the time: attach again exactly what the target already carries (same
+	// path, same summary, file untouched) - identical attachments must all be kept
+	if op.Target != nil {
+		if it := g.pre.Items[g.w.Resolve(*op.Target)]; it != nil && len(it.Results) > 0 && pct(t, 25, "res.repeat") {
+			prev := it.Results[uni(t, len(it.Results), "res.which")]
+			op.ResultPath, op.ResultSummary = sp(prev.Path), sp(prev.Summary)
+			return
+		}
+	}
 	name := fmt.Sprintf("out/r%d.txt", between(t, 0, 5, "res.file"))
+	if pct(t, 12, "res.oddname") {
+		name = oneOf(t, []string{"out/run%41.log", "out/coverage-100%.md", "out/a b#c?.txt", "out/ünï/r.txt", "out/%zz.txt"}, "res.odd")
+	}
 	content := oneOf(t, []string{"alpha", "beta\n", "", "γάμμα"}, "res.content")
 	op.Files = append(op.Files, FileSpec{Path: name, Content: content})
 	path := name
@@ -459,6 +476,19 @@ func genOp(t *rapid.T, w *World, pre *Snapshot, prof Profile) Op {
 			if len(paths) > 0 {
 				pth := paths[uni(t, len(paths), "seq.path")]
 				op.Refs = []Ref{g.ref(pth[0]), g.ref(pth[1])}
+				if pct(t, 50, "seq.implied") {
+					// the other direction: a already reaches c, so "a after c" is implied, legal and
+					// must still be recorded and reported truthfully
+					op.Refs = []Ref{g.ref(pth[1]), g.ref(pth[0])}
+				}
+				break
+			}
+		}
+		if pct(t, prof.MixedPct/2, "seq.waitcycle") {
+			// model-guided: propose an edge that closes a cycle only in the combined waits-for
+			// relation (through epic dependencies), if the current graph offers one
+			if refs := genWaitCycleEdge(t, g); refs != nil {
+				op.Refs = refs
 				break
 			}
 		}
@@ -643,4 +673,34 @@ func genMixedSequence(t *rapid.T, g refGen) []Ref {
 	t1 := oneOf(t, members[e1], "mixed.t1")
 	t2 := oneOf(t, members[e2], "mixed.t2")
 	return []Ref{g.ref(t1), g.ref(t2)}
+}
+
+// genWaitCycleEdge searches the current graph for a pair of tasks (or epics) whose
+// linking is legal edge-wise but closes a cycle in the waits-for relation.
+func genWaitCycleEdge(t *rapid.T, g refGen) []Ref {
+	ids := g.pre.SortedIDs()
+	var found [][2]string
+	for _, a := range ids {
+		for _, b := range ids {
+			if a == b || g.pre.Items[a].IsEpic != g.pre.Items[b].IsEpic {
+				continue
+			}
+			if hasStr(g.pre.Items[b].Deps, a) || reaches(g.pre, a, b, map[string]bool{}) {
+				continue
+			}
+			exp := g.pre.Clone()
+			exp.Items[b].Deps = addStr(exp.Items[b].Deps, a)
+			if WaitCycle(exp) && !WaitCycle(g.pre) {
+				found = append(found, [2]string{a, b})
+			}
+			if len(found) >= 8 {
+				break
+			}
+		}
+	}
+	if len(found) == 0 {
+		return nil
+	}
+	f := found[uni(t, len(found), "waitcycle.pick")]
+	return []Ref{g.ref(f[0]), g.ref(f[1])}
 }
